@@ -424,7 +424,8 @@ def replay_cascade(fl, FA, vals=None, seed=0, budget=300, **kw):
                 if not (np.array_equal(before[0], after[0], equal_nan=True) and FA.same(before[1], after[1]) and before[2] == after[2]):
                     return {"failed": True, "expected": "value/previous_value/fuzzy unchanged after a failing defuzzification", "observed": [after[0].tolist(), after[1]], "call": "defuzzify with a failing defuzzifier"}
             held = s
-            dz.next = np.array(part, dtype=float) if len(part) > 1 or rng.random() < 0.5 else np.array(part[0], dtype=float)
+            # a single value arrives as a 1-element array, a 0-d array or a numpy.float64 (what weighted defuzzifiers return for floats)
+            dz.next = np.array(part, dtype=float) if len(part) > 1 or rng.random() < 0.4 else rng.choice([np.array(part[0], dtype=float), np.float64(part[0])])
             ov.defuzzify()
             exp = []
             for dv in part:
@@ -465,6 +466,10 @@ def _ready_engine(fl, rng, kind):
     act = rng.choice([fl.General(), fl.General(), fl.First(2, 0.0), fl.Last(1, 0.1), fl.Highest(2), fl.Lowest(1), fl.Proportional(), fl.Threshold(">=", 0.2)])
     rules = [fl.Rule.create(f"if {rng.choice(ants)} then {rng.choice(cons)}") for _ in range(rng.randrange(1, 4))]
     rb = fl.RuleBlock(name="rb", conjunction=fl.Minimum(), disjunction=fl.Maximum(), implication=fl.Minimum(), activation=act, rules=rules)
+    for ov in outs:       # the readiness check says nothing about these settings: a ready engine must process with any of them
+        ov.lock_previous = rng.random() < 0.4
+        ov.default_value = rng.choice([float("nan"), float("nan"), 0.5])
+        ov.lock_range = rng.random() < 0.3
     e = fl.Engine(name="e", input_variables=[A, B, C], output_variables=outs, rule_blocks=[rb])
     return e
 
